@@ -59,9 +59,27 @@ class Sched:
         return c
 
 
+def _gc_fence():
+    """make the full collections inside ONE case cheap: everything alive when the case starts (the test tooling's large,
+    long-lived heap) is moved to the permanent generation, so gc.collect() during the case only looks at the case's own
+    objects. Objects frozen here are never freed; the process is short-lived and this happens for a fraction of cases."""
+    import gc
+
+    gc.collect()
+    gc.freeze()
+
+
+def _collect():
+    import gc
+
+    gc.collect()
+
+
 def execute(case, sched: Sched):
     scripts = case["tasks"]
     obs = {"violations": [], "classes": set(), "steps": 0, "hang": False}
+    if case.get("gc"):
+        _gc_fence()
     sent = P.sentinels()
     labels = {id(s): ("sentinel", n) for n, s in sent.items()}
     keep = []
@@ -178,6 +196,7 @@ def execute(case, sched: Sched):
                             await cm.__aexit__(None, None, None)
                         else:
                             cm.__exit__(None, None, None)
+                        cm = None  # the harness keeps nothing of a block that was left
                 elif s == "probe_nodefault":
                     for n in step["types"]:
                         try:
@@ -224,6 +243,11 @@ def execute(case, sched: Sched):
             tasks[tid]["cmd"].set_result("step")
             await vloop.settle()
             obs["steps"] += 1
+            if case.get("gc"):
+                # a garbage collection between any two steps must not change what anybody sees (state that is only
+                # weakly held, objects revived or finalised early)
+                _collect()
+                obs["classes"].add("gc-between-steps")
             # probe every live task that is not mid-operation, inside that task
             live = [t for t in sorted(tasks) if tasks[t]["idle"] and not tasks[t]["task"].done()]
             for t in live:
@@ -373,7 +397,8 @@ def strategy(tier):
             spawned.add(child)
         choices = None if exhaustive else draw(st.lists(st.integers(0, 3), min_size=0, max_size=30))
         fp = draw(st.sampled_from(["default", "nodefault", "both"]))
-        return {"tasks": scripts, "choices": choices, "exhaustive": exhaustive, "fp": fp}
+        gc_ = (not exhaustive) and draw(st.integers(0, 7)) == 0
+        return {"tasks": scripts, "choices": choices, "exhaustive": exhaustive, "fp": fp, "gc": gc_}
 
     return cases()
 
